@@ -6,6 +6,7 @@ import (
 	"strings"
 	"testing"
 
+	"github.com/cybergarage/go-redis/redis"
 	"github.com/cybergarage/go-redis/redis/auth"
 	"verif/sim/resp"
 	"verif/sim/sim"
@@ -45,6 +46,13 @@ func runC19(t *testing.T, tape *sim.Tape, tier string) *Outcome {
 	rs := wl.NewRefStore()
 	p := wl.GetPKI()
 	cnRule := tape.Draw(2, "cnrule") == 1
+	// a command on the key "inexec" stays inside its handler until the check lets it go (Stop with a connection executing)
+	releaseExec := false
+	rs.Enter = func(conn *redis.Conn, method, key string) {
+		if key == "inexec" && !releaseExec {
+			cl.S.Park("?", "handler:"+method, nil, func() bool { return releaseExec })
+		}
+	}
 	setupTLSServer(cl, 0, rs)
 	if cnRule {
 		cl.Srv.AddAuthenticator(auth.NewCertificateAuthenticatorWith(auth.WithCommonName(p.RuleName)))
@@ -249,10 +257,23 @@ func runC19(t *testing.T, tape *sim.Tape, tier string) *Outcome {
 			hs.Fault = "stall"
 			hs.dial()
 			cl.settle(4000)
+			// ... and one whose command is executing (inside the handler, command mutex held) while Stop runs
+			inexec := cl.addClient("inexec", plainAddr, [][]byte{resp.Cmd("GET", "inexec")})
+			inexec.End = endPlan{Mode: -1, AfterTx: -1}
+			inexec.NoDial = true
+			inexec.dial()
+			if !inexec.Refused {
+				inexec.P.Ends[0].Write(inexec.stream)
+				inexec.sent = len(inexec.stream)
+			}
+			cl.settle(4000)
+			o.stat("stop_with_connection_executing", 1)
 			o.stat("stop_with_connection_mid_handshake", 1)
 			o.stat("stop_with_connection_mid_request", 1)
 			o.stat("stop_with_idle_connections", len(keepers))
 			cl.lifecycle("Stop")
+			cl.settle(4000)
+			releaseExec = true
 			cl.settle(4000)
 			if err := cl.lifeErr[len(cl.lifeErr)-1]; err != nil {
 				o.violate("c19:stop-failed", "Stop returned %v", err)
@@ -269,6 +290,9 @@ func runC19(t *testing.T, tape *sim.Tape, tier string) *Outcome {
 				}
 				if hs.P != nil {
 					modes[hs.P.ID] = "mid-handshake"
+				}
+				if inexec.P != nil {
+					modes[inexec.P.ID] = "executing a command"
 				}
 				var desc []string
 				for _, id := range open {
@@ -329,7 +353,7 @@ func init() {
 	register(&Check{
 		ID: "C19", Bubble: true, Run: runC19,
 		Runs:   map[string]int{"quick": 800, "thorough": 2400},
-		Rule:   "a case (evaluation) is one connection lifetime inside a churn run: plain and TLS ports, optional common-name rule, reference store; each run opens 30 (thorough 1500) connections in batches with up to 1..32 in flight, each ended by a drawn mode {FIN at a request boundary or inside a request (half-close/close), RST at boundary/inside, QUIT, malformed frame, write failure after the client stopped reading, TLS garbage / abort after ClientHello / untrusted certificate / certificate rejected by the rule, TLS session then close or reset, idle then close}, interleaved by the seeded scheduler; some stay idle across batches; a third of the runs end with Stop while connections are idle, mid-request and mid-handshake; accounting (socket closed, goroutine gone, registry entry gone; idle baseline at the end) at every drain point; distinct = distinct event-log hashes of runs",
+		Rule:   "a case (evaluation) is one connection lifetime inside a churn run: plain and TLS ports, optional common-name rule, reference store; each run opens 30 (thorough 1500) connections in batches with up to 1..32 in flight, each ended by a drawn mode {FIN at a request boundary or inside a request (half-close/close), RST at boundary/inside, QUIT, malformed frame, write failure after the client stopped reading, TLS garbage / abort after ClientHello / untrusted certificate / certificate rejected by the rule, TLS session then close or reset, idle then close}, interleaved by the seeded scheduler; some stay idle across batches; a third of the runs end with Stop while connections are idle, mid-request, mid-handshake and inside a handler call; accounting (socket closed, goroutine gone, registry entry gone; idle baseline at the end) at every drain point; distinct = distinct event-log hashes of runs",
 		Real:   []string{"redis.Server accept loops, TLS handshake goroutine, connection loop, ConnManager, Stop", "crypto/tls"},
 		Stub:   []string{"network: simulated (descriptor count = server-side ends not yet closed; real descriptors do not exist in the simulation)", "handler: reference store"},
 		Assume: []string{"the idle baseline is the set of parked server tasks right after Start (one accept loop per enabled port)"},
